@@ -548,7 +548,7 @@ def make_live_classes():
                 out = "raise:" + type(e).__name__
             except Exception as e:
                 out = "raise!:" + type(e).__name__ + ":" + str(e)[:80]
-            self.log.append((act, out))
+            self.log.append((0, len(self.log), act, out))
             post = w.hooks_get("post_action")
             if post:
                 w.safe(post, w, self, market, act, order, out)
